@@ -43,6 +43,9 @@ def dict_state(d, o, where):
     """Relabel a library effect dict as a reference-terminal state; checks key/value consistency."""
     texts = []
     for k, v in d.items():
+        if not hasattr(k, 'name'):
+            o.fail('dict-foreign-key', '%s: key %r' % (where, k))
+            continue
         slot = EFFECT_SLOT.get(k.name)
         g = sgrterm.groups_of(str(v))
         if slot is None or g != {slot}:
@@ -118,6 +121,11 @@ def eval_case(case):
                 res_ids = [id(x) for x in res]
                 res_txt = [str(x) for x in res]
                 d2 = settings_to_dict(res, old)
+                d2_state = dict(d2)
+                d2['__probe__'] = 1
+                if '__probe__' in old:
+                    o.fail('result-aliases-old', 'old %r new %r: the returned dict is the old one' % (old_toks, toks))
+                d2.pop('__probe__', None)
                 if old != old_copy or list(old.keys()) != list(old_copy.keys()):
                     o.fail('old-dict-modified', 'old %r new %r' % (old_toks, toks))
                 if [id(x) for x in res] != res_ids or [str(x) for x in res] != res_txt:
@@ -128,8 +136,14 @@ def eval_case(case):
                 if got2 != sgrterm.freeze(exp2):
                     o.fail('state-on-old-mismatch', 'old %r + new %r -> %r; terminal %r' % (old_toks, toks, got2, sgrterm.freeze(exp2)))
                 o.label('with-prior')
+        # the result must be a fresh state: changing it must neither change `old` nor what a later call starts from
+        d['__probe__'] = 1
+        d.pop('__probe__')
+        d.clear()
+        d['__probe__'] = 1
         if settings_to_dict([]) != {}:
-            o.fail('default-dict-polluted', 'settings_to_dict([]) == %r' % (settings_to_dict([]),))
+            o.fail('default-dict-polluted', 'after changing the dict returned for %r, settings_to_dict([]) == %r (the result aliases the shared default)' % (inp, settings_to_dict([]),))
+        d.pop('__probe__', None)
     else:
         flat = []
         for x in res:
